@@ -177,6 +177,25 @@ func (g *G) genAolGenesis(cdc codec.JSONCodec) json.RawMessage {
 			}
 		}
 	}
+	// one owner with more topics, and one topic with more writers, than the default page size
+	if g.chance("over-default-page", g.bias("big-listing", 15)) {
+		o := sdk.AccAddress(base[:33])
+		nT := 101 + g.intn("big-topics", 25)
+		gs.Owners[o.String()] = &aoltypes.Owner{TotalTopics: uint64(nT)}
+		for i := 0; i < nT; i++ {
+			name := fmt.Sprintf("t%03d", i)
+			tp := &aoltypes.Topic{Description: "big"}
+			if i == 0 {
+				nW := 101 + g.intn("big-writers", 15)
+				tp.TotalWriters = uint64(nW)
+				for j := 0; j < nW; j++ {
+					wa := sdk.AccAddress(append([]byte{0xEE, byte(j)}, base[:18]...))
+					gs.Writers[o.String()+"/"+name+"/"+wa.String()] = &aoltypes.Writer{Moniker: "m", NanoTimestamp: nano}
+				}
+			}
+			gs.Topics[o.String()+"/"+name] = tp
+		}
+	}
 	bz, err := cdc.MarshalJSON(gs)
 	if err != nil {
 		panic(err)
